@@ -511,3 +511,98 @@ theorem fine_updFreq (cfg : Cfg) (l : Local) (s : State) (sid : Nat) (id : Strin
   simp only [hc, hw]
 
 end Chokan.Fine
+
+/-! ### the entry queue: nothing is lost, nothing is invented, order is kept -/
+
+namespace Chokan.Fine
+open Chokan.Conc Chokan.Gen.Server Chokan.Server Chokan.Kkc Chokan.Dic
+
+/-- what one step puts into the entry queue / takes out of it -/
+def sentBy (c : Cfg) (d : FSt) (ik : Nat × Nat) : List Entry :=
+  match headEv d.st ik.1, d.locals[ik.1]? with
+  | some (.send .entry), some l =>
+    match l.req with
+    | .confirm _ _ _ => l.entry.toList
+    | .register kind reading word => (regEntry c kind reading word).toList
+    | _ => []
+  | _, _ => []
+
+def takenBy (d : FSt) (ik : Nat × Nat) : List Entry :=
+  match headEv d.st ik.1, d.locals[ik.1]? with
+  | some (.recv .entry), some l =>
+    match l.req with
+    | .other => d.data.pending.head?.toList
+    | _ => []
+  | _, _ => []
+
+def sentLog (c : Cfg) : FSt → List (Nat × Nat) → List Entry
+  | _, [] => []
+  | d, ik :: t => sentBy c d ik ++ sentLog c (fstep c d ik) t
+
+def takenLog (c : Cfg) : FSt → List (Nat × Nat) → List Entry
+  | _, [] => []
+  | d, ik :: t => takenBy d ik ++ takenLog c (fstep c d ik) t
+
+theorem effect_pending (c : Cfg) (e : Ev) (l : Local) (s : State) :
+    (effect c e l s).2.pending =
+      match e, l.req with
+      | .send .entry, .confirm _ _ _ => s.pending ++ l.entry.toList
+      | .send .entry, .register kind reading word => s.pending ++ (regEntry c kind reading word).toList
+      | .recv .entry, .other => s.pending.tail
+      | _, _ => s.pending := by
+  cases e with
+  | acq k => cases hr : l.req <;> simp [effect, hr]
+  | rel k => cases hr : l.req <;> simp [effect, hr]
+  | respond => cases hr : l.req <;> simp [effect, hr]
+  | recv ch => cases ch <;> cases hr : l.req <;> simp [effect, hr]
+  | send ch =>
+    cases ch with
+    | tick => cases hr : l.req <;> simp [effect, hr]
+    | entry =>
+      cases hr : l.req with
+      | conv a b => simp [effect, hr]
+      | other => simp [effect, hr]
+      | confirm a b d => cases he : l.entry <;> simp [effect, hr, he]
+      | register a b d => cases he : regEntry c a b d <;> simp [effect, hr, he]
+  | act a =>
+    cases a <;> cases hr : l.req <;> simp only [effect, hr]
+    all_goals first
+      | rfl
+      | (simp only [save]; split <;> rfl)
+      | (split <;> first | rfl | (split <;> rfl))
+
+theorem queue_step (c : Cfg) (d : FSt) (ik : Nat × Nat) :
+    d.data.pending ++ sentBy c d ik = takenBy d ik ++ (fstep c d ik).data.pending := by
+  unfold sentBy takenBy fstep
+  cases hh : headEv d.st ik.1 with
+  | none => simp
+  | some e =>
+    cases hl : d.locals[ik.1]? with
+    | none => simp
+    | some l =>
+      simp only
+      rw [effect_pending]
+      cases e with
+      | send ch =>
+        cases ch <;> cases hr : l.req <;> simp [hr]
+      | recv ch =>
+        cases ch <;> cases hr : l.req <;> simp [hr]
+        cases hp : d.data.pending <;> simp
+      | acq k => cases l.req <;> simp
+      | rel k => cases l.req <;> simp
+      | act a => cases a <;> cases l.req <;> simp
+      | respond => cases l.req <;> simp
+
+/-- **Queue conservation under every schedule**: what was queued at the start followed by everything sent, in order, is
+everything taken, in order, followed by what is still queued. -/
+theorem queue_conserved (c : Cfg) : ∀ (sched : List (Nat × Nat)) (d : FSt),
+    d.data.pending ++ sentLog c d sched = takenLog c d sched ++ (frun c d sched).data.pending
+  | [], d => by simp [sentLog, takenLog, frun]
+  | ik :: t, d => by
+    have h1 := queue_step c d ik
+    have h2 := queue_conserved c t (fstep c d ik)
+    show d.data.pending ++ (sentBy c d ik ++ sentLog c (fstep c d ik) t) =
+      (takenBy d ik ++ takenLog c (fstep c d ik) t) ++ (frun c (fstep c d ik) t).data.pending
+    rw [← List.append_assoc, h1, List.append_assoc, h2, List.append_assoc]
+
+end Chokan.Fine
